@@ -106,3 +106,197 @@ pub fn ref_byte_index(h: u32, x: u32, y: u32) -> u64 {
 pub fn ref_bit_index(y: u32) -> u8 {
     (y % 8) as u8
 }
+
+// ------------------------------------------------------------------------------------------------
+// Sign-side protocol state machine (properties C13 / C14), over scalars only.
+// State indices follow the documentation order of `State`:
+// 0 Unconfigured, 1 ConfigInProgress, 2 ConfigReceived, 3 ConfigFailed, 4 PixelsInProgress,
+// 5 PixelsReceived, 6 PixelsFailed, 7 PageLoaded, 8 PageLoadInProgress, 9 PageShown,
+// 10 PageShowInProgress, 11 ShowingPages, 12 ReadyToReset.
+// Operation indices: 0 ReceiveConfig, 1 ReceivePixels, 2 ShowLoadedPage, 3 LoadNextPage,
+// 4 StartReset, 5 FinishReset.
+
+#[derive(Debug, Clone, Copy, PartialEq, Eq)]
+pub struct RefSign {
+    pub addr: u16,
+    pub automatic: bool,
+    pub state: u8,
+    pub w: u32,
+    pub h: u32,
+    pub chunks: u16,
+    pub pend_len: usize,
+    pub npages: usize,
+}
+
+#[derive(Debug, Clone, Copy, PartialEq, Eq)]
+pub enum RefMsg {
+    Hello(u16),
+    Query(u16),
+    Request(u16, u8),
+    /// offset, length, and (only meaningful when length == 16) the bytes 0,4,5,6,7,8 of the block
+    SendData { offset: u16, len: usize, b0: u8, b4: u8, b5: u8, b6: u8, b7: u8, b8: u8 },
+    ChunksSent(u16),
+    PixelsComplete(u16),
+    Goodbye(u16),
+    /// anything a sign never reacts to (reports, acknowledgements, unknown frames)
+    Other,
+}
+
+#[derive(Debug, Clone, Copy, PartialEq, Eq)]
+pub enum RefReply {
+    None,
+    Report(u16, u8),
+    Ack(u16, u8),
+}
+
+/// What happens to the stored pages / pending buffer / recorded type in one step.
+#[derive(Debug, Clone, Copy, PartialEq, Eq)]
+pub enum RefEffect {
+    /// nothing but the scalar fields may change
+    Keep,
+    /// pages, pending data, type all cleared (reset / goodbye)
+    Blank,
+    /// stored pages cleared (new pixel transfer acknowledged)
+    ClearPages,
+    /// configuration block accepted: type recorded from the block
+    Configured,
+    /// pixel chunk accepted: if `flush_first`, the pending buffer is first turned into a page
+    /// (when it is a complete page of the configured size) or dropped; then the chunk is appended
+    Append { flush_first: bool },
+    /// the pending buffer is turned into a page (if complete) or dropped
+    Flush,
+}
+
+fn op_legal(op: u8, state: u8) -> bool {
+    match op {
+        0 => state == 0 || state == 3,
+        1 => state == 2 || state == 6 || state == 7 || state == 8 || state == 9 || state == 10 || state == 11,
+        2 => state == 7,
+        3 => state == 9,
+        4 => true,
+        5 => state == 12,
+        _ => false,
+    }
+}
+
+fn blank(s: &mut RefSign) {
+    s.state = 0;
+    s.w = 0;
+    s.h = 0;
+    s.chunks = 0;
+    s.pend_len = 0;
+    s.npages = 0;
+}
+
+/// Is the pending buffer a complete page of the configured size?
+pub fn pending_is_page(s: &RefSign) -> bool {
+    s.pend_len > 0 && s.w > 0 && s.h > 0 && s.pend_len as u64 == ref_total_bytes(s.w, s.h)
+}
+
+pub fn ref_sign_step(s: &mut RefSign, m: RefMsg) -> (RefReply, RefEffect) {
+    match m {
+        RefMsg::Hello(a) | RefMsg::Query(a) => {
+            if a != s.addr {
+                return (RefReply::None, RefEffect::Keep);
+            }
+            let reported = s.state;
+            if s.state == 8 {
+                s.state = 7;
+            } else if s.state == 10 {
+                s.state = 9;
+            }
+            (RefReply::Report(s.addr, reported), RefEffect::Keep)
+        }
+        RefMsg::Request(a, op) => {
+            if a != s.addr || !op_legal(op, s.state) {
+                return (RefReply::None, RefEffect::Keep);
+            }
+            let eff = match op {
+                0 => {
+                    s.state = 1;
+                    RefEffect::Keep
+                }
+                1 => {
+                    s.state = 4;
+                    s.npages = 0;
+                    RefEffect::ClearPages
+                }
+                2 => {
+                    s.state = 10;
+                    RefEffect::Keep
+                }
+                3 => {
+                    s.state = 8;
+                    RefEffect::Keep
+                }
+                4 => {
+                    s.state = 12;
+                    RefEffect::Keep
+                }
+                _ => {
+                    blank(s);
+                    RefEffect::Blank
+                }
+            };
+            (RefReply::Ack(s.addr, op), eff)
+        }
+        RefMsg::Goodbye(a) => {
+            if a != s.addr {
+                return (RefReply::None, RefEffect::Keep);
+            }
+            blank(s);
+            (RefReply::None, RefEffect::Blank)
+        }
+        RefMsg::PixelsComplete(a) => {
+            if a == s.addr && s.state == 5 {
+                s.state = if s.automatic { 11 } else { 7 };
+            }
+            (RefReply::None, RefEffect::Keep)
+        }
+        RefMsg::SendData { offset, len, b0, b4, b5, b6, b7, b8 } => {
+            if s.state == 1 && offset == 0 && len == 16 && (b0 == 0x04 || b0 == 0x08) {
+                if b0 == 0x04 {
+                    s.w = b5 as u32 + b6 as u32 + b7 as u32 + b8 as u32;
+                    s.h = b4 as u32;
+                } else {
+                    s.w = b7 as u32;
+                    s.h = b5 as u32;
+                }
+                s.chunks = s.chunks.wrapping_add(1);
+                return (RefReply::None, RefEffect::Configured);
+            }
+            if s.state == 4 {
+                let flush_first = offset == 0;
+                if flush_first {
+                    if pending_is_page(s) {
+                        s.npages += 1;
+                    }
+                    s.pend_len = 0;
+                }
+                s.pend_len += len;
+                s.chunks = s.chunks.wrapping_add(1);
+                return (RefReply::None, RefEffect::Append { flush_first });
+            }
+            (RefReply::None, RefEffect::Keep)
+        }
+        RefMsg::ChunksSent(c) => {
+            if s.state == 1 {
+                s.state = if c == s.chunks { 2 } else { 3 };
+                s.chunks = 0;
+                return (RefReply::None, RefEffect::Keep);
+            }
+            if s.state == 4 {
+                s.state = if c == s.chunks { 5 } else { 6 };
+                s.chunks = 0;
+                if pending_is_page(s) {
+                    s.npages += 1;
+                }
+                s.pend_len = 0;
+                return (RefReply::None, RefEffect::Flush);
+            }
+            // Not receiving: an unaddressed chunk count is none of this sign's business.
+            (RefReply::None, RefEffect::Keep)
+        }
+        RefMsg::Other => (RefReply::None, RefEffect::Keep),
+    }
+}
